@@ -1,5 +1,6 @@
 SPECIFICATION Spec
 CONSTANTS MaxLen = 2
+BitSets <- BitsAll
 Fault = "defaults"
 INVARIANTS Refines
 CHECK_DEADLOCK FALSE
